@@ -83,8 +83,11 @@ def rule_sections(ctx, res):
     try:
         regions = {n for (_a, _b, n) in extract_rows(ctx, w)}
     except AnalysisError as e:
-        res.undecided('R-C13-sections', w.qual, 'memory map',
-                      'memory map not extracted: ' + str(e), w.loc)
+        # a cross-check with a sibling table that belongs to C18; when that
+        # table is not extractable the comparison is skipped, not failed
+        res.info('R-C13-sections', w.qual, 'memory map',
+                 'memory map not extracted (sibling cross-check skipped): ' +
+                 str(e)[:120], w.loc)
         regions = None
     mem_sections = sorted(regions | {'lua'}) if regions is not None \
         else None
